@@ -63,6 +63,11 @@ impl VSink {
     { unimplemented!() }
 
     #[verifier::external_body]
+    pub fn write_all16(&mut self, buf: &[u8; 16]) -> (r: std::io::Result<()>)
+        ensures r is Ok ==> final(self).bytes() == old(self).bytes() + buf@ && final(self).committed() == old(self).committed(),
+    { unimplemented!() }
+
+    #[verifier::external_body]
     pub fn flush(&mut self) -> (r: std::io::Result<()>)
         ensures r is Ok ==> final(self).bytes() == old(self).bytes() && final(self).committed() == final(self).bytes().len(),
     { unimplemented!() }
